@@ -190,6 +190,10 @@ LIB_METHODS = {
     ('vec_double', 'at'): ('*vec_double_at', ()),
     ('vec_double', 'reserve'): ('vec_double_reserve', ()),
     ('vec_double', 'emplace_back'): ('vec_double_emplace_back', ()),
+    ('vec_double', 'push_back'): ('vec_double_emplace_back', ()),
+    ('vec_double', 'empty'): ('vec_double_empty', ()),
+    ('vec_double', 'back'): ('*vec_double_back', ()),
+    ('vec_double', 'front'): ('*vec_double_front', ()),
     ('arr_double_100', 'at'): ('*arr_double_100_at', ()),
     ('arr_vec_size_256', 'at'): ('*arr_vec_size_256_at', ()),
     ('vec_size', 'size'): ('vec_size_size', ()),
@@ -1559,6 +1563,21 @@ class Emitter:
             if ct in ('uint64_t', 'size_t', 'uint32_t', 'int64_t', 'int32_t', '_Bool'):
                 return 'verif_exchange_%s(%s, %s)' % (ct, self.addr(args[0]), self.expr(args[1]))
             die('std::exchange on an object of type %s' % ct, e)
+        if rn == 'abs' and len(args) == 1:
+            ct = self.ctype(e)
+            if ct == 'double':
+                return 'verif_fabs(%s)' % self.expr(args[0])
+            if ct in ('int64_t', 'int32_t'):
+                a = self.paren(args[0])
+                return '(%s < 0 ? -%s : %s)' % (a, a, a)
+            die('std::abs of %s' % ct, e)
+        if rn == 'clamp' and len(args) == 3:
+            ct = self.ctype(e)
+            if ct not in ('double', 'uint64_t', 'size_t', 'int64_t', 'uint32_t', 'int32_t'):
+                die('std::clamp of %s' % ct, e)
+            return 'verif_min_%s(verif_max_%s(%s, %s), %s)' % (ct, ct, self.expr(args[0]), self.expr(args[1]), self.expr(args[2]))
+        if rn == 'addressof' and len(args) == 1:
+            return self.addr(args[0])
         if rn in ('max', 'min') and len(args) == 2:
             # std::min / std::max of two values (by-value stub; the reference result is only read)
             ct = self.ctype(e)
@@ -1705,6 +1724,9 @@ class Emitter:
                     vals = self.init_list_values(u)
                 if vals is not None and len(vals) == 1:
                     return 'arr_double_100_assign1(%s, %s)' % (self.addr(args[0]), vals[0])
+        if rn == 'operator[]' and a0t in ('vec_double', 'vec_size', 'arr_double_100', 'arr_vec_size_256') and len(args) == 2:
+            # v[i]: out-of-range is undefined behaviour; the bounds-checked stub reports it (stricter, never weaker)
+            return '(*%s_at(%s, %s))' % (a0t, self.addr(args[0]), self.expr(args[1]))
         if rn == 'operator*':
             if a0t == 'shared_ptr_size':
                 return '(*shared_ptr_size_deref(%s))' % self.addr(args[0])
